@@ -286,6 +286,7 @@ fn candidates_for(sc: &StructCase, visit: &mut dyn FnMut(StructCase) -> bool) ->
                 remove_cand(u, &mut ps, pi, k);
             }
             c.u.packages[pi].unlisted.clear();
+            c.u.packages[pi].lock_gone = false;
             for p in c.all_problems() {
                 p.soft.retain(|s| s.pkg != pi);
             }
@@ -381,6 +382,9 @@ fn candidates_for(sc: &StructCase, visit: &mut dyn FnMut(StructCase) -> bool) ->
                 if c.all_problems().iter().any(|p| p.soft.iter().any(|s| s.pkg == pi && !s.listed)) {
                     return false;
                 }
+                if c.u.packages[pi].lock_gone && c.u.packages[pi].unlisted.len() == 1 {
+                    return false;
+                }
                 c.u.packages[pi].unlisted.remove(ui);
                 true
             });
@@ -399,6 +403,7 @@ fn candidates_for(sc: &StructCase, visit: &mut dyn FnMut(StructCase) -> bool) ->
         });
         push(&|c| {
             c.u.packages[pi].locked = None;
+            c.u.packages[pi].lock_gone = false;
             true
         });
         push(&|c| {
@@ -474,12 +479,16 @@ pub fn minimize(start: StructCase, fails: &dyn Fn(&StructCase) -> bool, budget: 
     let mut evals = 0usize;
     let mut work = 0u64;
     const WORK_BUDGET: u64 = 400_000_000;
+    // the clock only bounds how small the replay file gets (building the edits of a case with
+    // thousands of candidates is itself expensive), never a verdict
+    let started = std::time::Instant::now();
+    let max_secs = std::env::var("VERIF_MINIMIZE_SECS").ok().and_then(|s| s.parse().ok()).unwrap_or(150u64);
     loop {
         let size = (best.u.n_solvables() + best.u.vsets.len() + best.u.packages.len() + 16) as u64;
         let mut next: Option<StructCase> = None;
         let mut exhausted = false;
         candidates_for(&best, &mut |cand: StructCase| {
-            if evals >= budget || work >= WORK_BUDGET {
+            if evals >= budget || work >= WORK_BUDGET || started.elapsed().as_secs() >= max_secs {
                 exhausted = true;
                 return true;
             }
